@@ -20,10 +20,10 @@ meta = {
         "suite_with_change": [l.strip() for l in log.splitlines() if "Summary" in l],
         "demo_with_change": "fails" if "demo with change rc=101" in log else "?",
         "demo_without_change": "passes" if "demo without change rc=0" in log else "?",
-        "commands": ["cargo nextest run --workspace --no-fail-fast --offline --test-threads 6",
+        "commands": ["cargo nextest run --workspace --no-fail-fast --offline --test-threads 4 --build-jobs 4",
                      "cargo test --offline --test seeded_demo (with and without the src change)"],
     },
-    "checks_run": "tools/try_patch.sh patch.diff <check>: quick tier, VERIF_SEED 20260926 and 1",
+    "checks_run": "tools/try_patch_isolated.sh patch.diff <check> (scratch worktree + scratch copy of /verif; /repo untouched): quick tier, VERIF_SEED 20260926 and 1",
     "caught_by": caught,
 }
 json.dump(meta, open(f"{dst}/meta.json", "w"), indent=1)
